@@ -11,17 +11,18 @@ Section Ops.
   Variable n0 cur0 : nat.
   Variable FV : name -> option val.
   Variable resl : list name.
+  Variable mutl : list name.
   Notation prot0 := (prot0 n0 resl).
   Notation ext_at := (ext_at n0 resl).
   Notation kext := (kext n0 resl).
-  Notation vrel := (vrel n0 cur0 FV resl).
-  Notation vrels := (vrels n0 cur0 FV resl).
-  Notation srel := (srel n0 cur0 FV resl).
-  Notation agree := (agree n0 cur0 FV resl).
-  Notation frame_rel := (frame_rel n0 cur0 FV resl).
-  Notation vars_rel := (vars_rel n0 cur0 FV resl).
-  Notation post := (post n0 cur0 FV resl).
-  Notation rres := (rres n0 cur0 FV resl).
+  Notation vrel := (vrel n0 cur0 FV resl mutl).
+  Notation vrels := (vrels n0 cur0 FV resl mutl).
+  Notation srel := (srel n0 cur0 FV resl mutl).
+  Notation agree := (agree n0 cur0 FV resl mutl).
+  Notation frame_rel := (frame_rel n0 cur0 FV resl mutl).
+  Notation vars_rel := (vars_rel n0 cur0 FV resl mutl).
+  Notation post := (post n0 cur0 FV resl mutl).
+  Notation rres := (rres n0 cur0 FV resl mutl).
 
   Hypothesis Hcur0 : cur0 < n0.
 
@@ -161,7 +162,7 @@ Section Ops.
       destruct (Forall2_nth _ _ _ _ _ F Ef) as (fr' & Ef' & FR).
       assert (Dc' : declare prot0 st' cur x v' =
                     UOk (mkState (set_nth cur (mkFrame (parent fr') ((x, v') :: vars fr') (budget fr')) (frames st')) (out st'))).
-      { unfold declare. rewrite Ef'. rewrite (frame_rel_in_dom _ _ _ _ _ _ _ x FR), Dx, Px. reflexivity. }
+      { unfold declare. rewrite Ef'. rewrite (frame_rel_in_dom _ _ _ _ _ _ _ _ x FR), Dx, Px. reflexivity. }
       rewrite Dc'. cbn [upd_result]. right. cbn [ret fst snd frames out].
       assert (K : kext (frames st) (frames st1)).
       { eapply ext_at_kext; eauto. intros G y [<-|[]]. auto. }
@@ -170,7 +171,7 @@ Section Ops.
         * assert (Q : frame_rel (frames st1) (mkFrame (parent fr) ((x, v) :: vars fr) (budget fr))
                                 (mkFrame (parent fr') ((x, v') :: vars fr') (budget fr'))).
           { destruct FR as [FP FVs]. split; cbn; auto. constructor.
-            - split; auto. cbn. eapply vrel_mono; eauto.
+            - split; auto. cbn. right. eapply vrel_mono; eauto.
             - eapply vars_rel_mono; eauto. }
           pose proof (frames_rel_update _ _ _ cur _ _ F K N Q) as Q2. rewrite <- Fs1 in Q2. exact Q2.
         * rewrite Fs1. eapply wf_frames_set; eauto.
@@ -181,7 +182,7 @@ Section Ops.
       { unfold declare in *. destruct S as [F O W N C].
         destruct (nth_error (frames st) cur) as [fr|] eqn:Ef.
         - destruct (Forall2_nth _ _ _ _ _ F Ef) as (fr' & Ef' & FR). rewrite Ef'.
-          rewrite (frame_rel_in_dom _ _ _ _ _ _ _ x FR).
+          rewrite (frame_rel_in_dom _ _ _ _ _ _ _ _ x FR).
           destruct (in_dom x fr); auto. destruct (prot0 cur x); discriminate.
         - rewrite (Forall2_nth_none _ _ _ _ F Ef). auto. }
       rewrite Dc'. cbn [upd_result]. eapply post_weaken; [apply post_throw_err; auto|intros ? []].
@@ -199,7 +200,7 @@ Section Ops.
       destruct (Forall2_nth _ _ _ _ _ F Ef) as (fr' & Ef' & FR).
       assert (Ac' : assign prot0 st' cur x v' =
                     UOk (mkState (set_nth g (mkFrame (parent fr') (assoc_set x v' (vars fr')) (budget fr')) (frames st')) (out st'))).
-      { unfold assign. rewrite (resolve_rel _ _ _ _ _ _ _ cur x F), Rg, Ef', Px. reflexivity. }
+      { unfold assign. rewrite (resolve_rel _ _ _ _ _ _ _ _ cur x F), Rg, Ef', Px. reflexivity. }
       rewrite Ac'. cbn [upd_result]. right. cbn [ret fst snd frames out].
       assert (K : kext (frames st) (frames st1)).
       { eapply ext_at_kext; eauto. intros G y []. }
@@ -215,7 +216,7 @@ Section Ops.
       + eapply agree_mono; eauto.
       + exact I.
     - assert (Ac' : assign prot0 st' cur x v' = UFail).
-      { unfold assign in *. destruct S as [F O W N C]. rewrite (resolve_rel _ _ _ _ _ _ _ cur x F).
+      { unfold assign in *. destruct S as [F O W N C]. rewrite (resolve_rel _ _ _ _ _ _ _ _ cur x F).
         destruct (resolve (frames st) cur x) as [g|]; auto.
         destruct (nth_error (frames st) g) as [fr|] eqn:Ef.
         - destruct (prot0 g x); discriminate.
@@ -249,11 +250,11 @@ Section Ops.
     destruct (match p with PEq | PPrint => true | _ => false end) eqn:Gen.
     - destruct p; try discriminate.
       + (* == *) inv R; [apply U|]. inv H0; [apply U|]. inv H2; [|apply U].
-        cbn. destruct (vrel_simple _ _ _ _ _ _ _ H) as [S1 E1]. destruct (vrel_simple _ _ _ _ _ _ _ H1) as [S2 E2].
+        cbn. destruct (vrel_simple _ _ _ _ _ _ _ _ H) as [S1 E1]. destruct (vrel_simple _ _ _ _ _ _ _ _ H1) as [S2 E2].
         rewrite <- S1, <- S2. destruct (simple v) eqn:Q1; cbn; [|apply U].
         destruct (simple v0) eqn:Q2; cbn; [|apply U].
         rewrite <- (E1 eq_refl), <- (E2 eq_refl). apply RB.
-      + (* print *) cbn. destruct (vrels_simple _ _ _ _ _ _ _ R) as [S1 E1]. rewrite <- S1.
+      + (* print *) cbn. destruct (vrels_simple _ _ _ _ _ _ _ _ R) as [S1 E1]. rewrite <- S1.
         destruct (forallb simple args) eqn:Q; [|apply U].
         rewrite <- (E1 eq_refl). right. cbn [ret fst snd frames out].
         destruct S as [F O W N C]. split5; auto using ext_at_refl, kext_refl.
@@ -263,7 +264,7 @@ Section Ops.
       destruct Rl as [|b b' l2 l2' Rb Rl2].
       + (* one argument *)
         inv Ra; destruct p; try discriminate; cbn; auto.
-        rewrite (vrels_length _ _ _ _ _ _ _ H). auto.
+        rewrite (vrels_length _ _ _ _ _ _ _ _ H). auto.
       + destruct Rl2 as [|c c' l3 l3' Rc Rl3].
         * (* two arguments *)
           inv Ra; inv Rb; destruct p; try discriminate; cbn; auto.
